@@ -131,6 +131,7 @@ void dump_queries(Json &j, const TopologyKernel &m, int level) {
         j.key("bhf"); bnd_walk(j, m.bhf_iter());
         j.key("bf"); bnd_walk(j, m.bf_iter());
         j.key("bc"); bnd_walk(j, m.bc_iter());
+        j.key("fcells"); j.begin_arr(); for (int i = 0; i < nf; ++i) { FaceHandle h(i); j.begin_arr(); if (fbu && !m.is_deleted(h)) { auto fc = m.face_cells(h); j.val(fc[0].idx()); j.val(fc[1].idx()); } j.end_arr(); } j.end_arr();
         j.key("incq"); j.begin_arr(); for (int i = 0; i < 2 * nf; ++i) { HalfFaceHandle h(i); j.val((long long)((fbu && !m.is_deleted(h)) ? m.incident_cell(h).idx() : -9)); } j.end_arr();
     }
     if (level & 2) {
@@ -161,6 +162,13 @@ void dump_queries(Json &j, const TopologyKernel &m, int level) {
             j.val(m.from_vertex_handle(h).idx()); j.val(m.to_vertex_handle(h).idx()); j.val(m.opposite_halfedge_handle(h).idx());
             auto o = m.opposite_halfedge(h); j.val(o.from_vertex().idx()); j.val(o.to_vertex().idx()); j.end_arr(); }
         j.end_arr();
+        j.key("conv"); j.begin_arr();   // convenience accessors: halfedge_vertices, edge_vertices, edge_halfedges
+        for (int i = 0; i < ne; ++i) { EdgeHandle e(i); auto ev = m.edge_vertices(e); auto eh = m.edge_halfedges(e);
+            auto h0 = m.halfedge_vertices(HalfEdgeHandle(2 * i)); auto h1 = m.halfedge_vertices(HalfEdgeHandle(2 * i + 1));
+            j.begin_arr(); j.val(ev[0].idx()); j.val(ev[1].idx()); j.val(eh[0].idx()); j.val(eh[1].idx());
+            j.val(h0[0].idx()); j.val(h0[1].idx()); j.val(h1[0].idx()); j.val(h1[1].idx()); j.end_arr(); }
+        j.end_arr();
+        j.key("fhfs"); j.begin_arr(); for (int i = 0; i < nf; ++i) { auto x = m.face_halffaces(FaceHandle(i)); j.begin_arr(); j.val(x[0].idx()); j.val(x[1].idx()); j.end_arr(); } j.end_arr();
         j.key("hfhes"); j.begin_arr();
         for (int i = 0; i < 2 * nf; ++i) { HalfFaceHandle h(i); j.begin_arr(); for (auto x : m.halfface(h).halfedges()) j.val(x.idx()); j.end_arr(); }
         j.end_arr();
